@@ -51,12 +51,19 @@ var bigArc = regexp.MustCompile(`[0-9]\.(2147483(6(4[89]|[5-9][0-9])|[7-9][0-9]{
 
 // zone offset (seconds east) of local midnight of a YYYY-MM-DD date, 0 when the text is not such a date
 func localOffsetOf(date string) int64 {
+	off, _ := localOffset(date)
+	return off
+}
+
+// The offset with which Go turns local midnight of that date into an instant: wall clock minus instant.  (Not the zone in force
+// AT that instant: when midnight falls into the gap of a daylight-saving transition - Tokyo, 7 May 1950 - the two differ.)
+func localOffset(date string) (int64, bool) {
 	t, err := time.ParseInLocation("2006-01-02", date, time.Local)
 	if err != nil {
-		return 0
+		return 0, false
 	}
-	_, off := t.Zone()
-	return int64(off)
+	u, _ := time.Parse("2006-01-02", date)
+	return int64(u.Sub(t) / time.Second), true
 }
 
 // the validity block that applies: the entity's own, else its profile's
@@ -514,6 +521,13 @@ func runHierarchy(tag string, ents []entity, profiles []*Profile) int {
 			expect = "(Some " + cqBytes(o.der) + ")"
 			_, offNb := o.nb.In(time.Local).Zone()
 			_, offNa := o.na.In(time.Local).Zone()
+			// explicit dates: the offset Go converted them with (see localOffset)
+			if x, ok := localOffset(effValidity(e).From); ok {
+				offNb = int(x)
+			}
+			if x, ok := localOffset(effValidity(e).Until); ok {
+				offNa = int(x)
+			}
 			nl := o.nb.In(time.Local)
 			obsTerm = fmt.Sprintf("(mkObs %s (spki_of %s) %s (mkWall %d %d %d %d) %s %s)", cqZbig(o.serial), cqBytes(o.spki), cqBytes(o.sig),
 				nl.Year(), int(nl.Month()), nl.Day(), nl.Hour()*3600+nl.Minute()*60+nl.Second(), cqZ(int64(offNb)), cqZ(int64(offNa)))
